@@ -42,6 +42,8 @@
 //!   ws interactive|batch <msg,msg,..|none>   a `Websocket<JsonEncoding, JsonEncoding>` function over an in-memory duplex whose client
 //!                                       write half only transmits on flush; interactive = wait for answer k before sending k+1
 //!                                       -> answers seen (`ehang` = nothing arrives) ## ok|fail websocket (= the direct conversation)
+//!   dcall <deepfn> <depth> <width>       a comment thread nested <depth> levels (<width> replies per level) through each codec
+//!                                       -> ok <depth> <nodes> | err <Kind>      ## ok|fail deep-nesting (remote = direct)
 //!  (c) corruption (testing)
 //!   corrupth <hexfn> req|res <mut> <arg>-> result                                 ## ok|fail panic
 //!   corrupt <typedfn> req|res <mut> echo|fail.. (as tcall) -> done               ## ok|fail panic
@@ -1302,6 +1304,79 @@ fn converse(remote: bool, interactive: bool, msgs: &[String]) -> Vec<Result<Vec<
     seen
 }
 
+// ------------------------------------------------------------------ deeply nested values
+
+/// a comment thread: recursion depth is a property of the value, not of the type
+#[derive(Clone, Debug, PartialEq, serde::Serialize, serde::Deserialize, serde_lite::Serialize, serde_lite::Deserialize)]
+pub struct Thread {
+    pub id: u32,
+    pub text: String,
+    pub replies: Vec<Thread>,
+}
+
+/// `depth` levels below the root; every inner node has `width` replies, the first of which carries the rest
+fn make_thread(depth: u32, width: u32) -> Thread {
+    let mut t = Thread { id: 0, text: "leaf|0".into(), replies: vec![] };
+    for d in 1..=depth {
+        let mut replies = vec![t];
+        for k in 1..width.max(1) {
+            replies.push(Thread { id: d * 1000 + k, text: format!("r{k}"), replies: vec![] });
+        }
+        t = Thread { id: d, text: format!("t|{d}\n"), replies };
+    }
+    t
+}
+
+/// (depth, node count), without recursion
+fn measure(t: &Thread) -> (u32, u32) {
+    let (mut depth, mut nodes) = (0u32, 0u32);
+    let mut stack = vec![(t, 0u32)];
+    while let Some((n, d)) = stack.pop() {
+        nodes += 1;
+        depth = depth.max(d);
+        for r in &n.replies {
+            stack.push((r, d + 1));
+        }
+    }
+    (depth, nodes)
+}
+
+/// drop without recursion (a deep value must not overflow the stack in the harness itself)
+fn dismantle(t: Thread) {
+    let mut stack = vec![t];
+    while let Some(mut n) = stack.pop() {
+        stack.append(&mut n.replies);
+    }
+}
+
+macro_rules! deep_fn {
+    ($f:ident, $S:ident, $ep:literal, $in:ident, $out:ident) => {
+        #[server(name = $S, prefix = "/api", endpoint = $ep, input = $in, output = $out, client = LoopClient, server = LoopServer)]
+        pub async fn $f(t: Thread) -> Result<Thread, ServerFnError> {
+            Ok(t)
+        }
+    };
+}
+deep_fn!(d_json, DJson, "d_json", Json, Json);
+deep_fn!(d_cbor, DCbor, "d_cbor", Cbor, Cbor);
+deep_fn!(d_msgpack, DMsgpack, "d_msgpack", MsgPack, MsgPack);
+deep_fn!(d_postcard, DPostcard, "d_postcard", Postcard, Postcard);
+deep_fn!(d_serdelite, DSerdelite, "d_serdelite", SerdeLite, SerdeLite);
+deep_fn!(d_json_cbor, DJsonCbor, "d_json_cbor", Json, Cbor);
+
+fn deep_both(name: &str, t: &Thread) -> Option<(Result<Thread, ServerFnError>, Result<Thread, ServerFnError>)> {
+    macro_rules! arms {
+        ($( $f:ident => $S:ident ),*) => {
+            match name {
+                $( stringify!($f) => Some((block_on($S { t: t.clone() }.run_on_client()), block_on($f(t.clone())))), )*
+                _ => None,
+            }
+        };
+    }
+    arms!(d_json => DJson, d_cbor => DCbor, d_msgpack => DMsgpack, d_postcard => DPostcard, d_serdelite => DSerdelite,
+        d_json_cbor => DJsonCbor)
+}
+
 // ------------------------------------------------------------------ streaming
 
 #[server(name = TextEcho, prefix = "/api", endpoint = "text_echo", input = StreamingText, output = StreamingText, client = LoopClient, server = LoopServer)]
@@ -2073,6 +2148,42 @@ fn op(line: &str) -> String {
             let direct = converse(false, interactive, &msgs);
             format!("{} ## {}", show_items(&remote), if remote == direct { "ok" } else { "fail websocket" })
         }
+        ["dcall", f, ds, ws] => {
+            let (Ok(depth), Ok(width)) = (ds.parse::<u32>(), ws.parse::<u32>()) else { return "bad-op".into() };
+            if depth > 400 || width > 4 || width == 0 {
+                return "bad-op".into();
+            }
+            let t = make_thread(depth, width);
+            let show = move |r: Result<Thread, ServerFnError>| match r {
+                Ok(t) => {
+                    let (d, n) = measure(&t);
+                    let whole = t == make_thread(d, width);
+                    dismantle(t);
+                    format!("ok {d} {n}{}", if whole { "" } else { " altered" })
+                }
+                Err(e) => format!("err {}", show_err(&e).split(':').next().unwrap_or("?")),
+            };
+            let r = std::thread::Builder::new()
+                .stack_size(64 << 20)
+                .spawn({
+                    let f = f.to_string();
+                    move || {
+                        quiet_panics();
+                        let out = catch_unwind(AssertUnwindSafe(|| deep_both(&f, &t).map(|(r, d)| (show(r), show(d)))));
+                        dismantle(t);
+                        out
+                    }
+                })
+                .unwrap()
+                .join();
+            match r {
+                Ok(Ok(Some((remote, direct)))) => {
+                    format!("{remote} ## {}", if remote == direct { "ok" } else { "fail deep-nesting" })
+                }
+                Ok(Ok(None)) => "bad-op".into(),
+                _ => "panic ## fail panic".into(),
+            }
+        }
         ["ncall", f] => {
             let run = |f: &str| -> Option<(Result<String, ServerFnError>, Result<String, ServerFnError>)> {
                 Some(match f {
@@ -2573,7 +2684,7 @@ fn gen(seed: u64, n: usize, path: &str) -> std::io::Result<()> {
     let rows = path_rows();
     for i in 0..n {
         let ty = if r.chance(1, 3) { "c" } else { "n" };
-        match r.below(32) {
+        match r.below(33) {
             0 | 1 | 2 => {
                 writeln!(f, "case {i}-errfmt")?;
                 writeln!(f, "ser {ty} {} {}", gen_variant(&mut r), hex(gen_text(&mut r, 8, ty == "c").as_bytes()))?
@@ -2756,6 +2867,26 @@ fn gen(seed: u64, n: usize, path: &str) -> std::io::Result<()> {
                     if r.chance(2, 3) { "interactive" } else { "batch" },
                     if msgs.is_empty() { "none".to_string() } else { msgs.join(",") }
                 )?
+            }
+            32 => {
+                // deeply nested values, within what each third-party decoder accepts at this commit
+                writeln!(f, "case {i}-deep")?;
+                let (fname, limit) = *r.pick(&[
+                    ("d_json", 62usize),
+                    ("d_serdelite", 62),
+                    ("d_json_cbor", 62),
+                    ("d_cbor", 126),
+                    ("d_cbor", 126),
+                    ("d_msgpack", 300),
+                    ("d_postcard", 300),
+                ]);
+                let depth = match r.below(4) {
+                    0 => *r.pick(&[0, 1, 2, 10, 40, 62, 100, 126, 127, 200, 300]),
+                    1 => limit - r.below(3).min(limit),
+                    _ => r.below(limit + 1),
+                }
+                .min(limit);
+                writeln!(f, "dcall {fname} {depth} {}", r.range(1, 3))?
             }
             24 => {
                 writeln!(f, "case {i}-noargs")?;
